@@ -10,6 +10,7 @@ import Spq.Drv.Cover
 import Spq.Drv.ModuleNtt
 import Spq.Drv.CSrc
 import Spq.Drv.ModuleHeap
+import Spq.Drv.ModSrc
 import Spq.Drv.Prog
 /- Model driver: one operation per line in, one canonical result line out. -/
 open Spq.Drv
@@ -31,6 +32,7 @@ def dispatch (toks : List String) : String :=
     | "mn" :: rest => handleMn rest
     | "cs" :: rest => handleCs rest
     | "mh" :: rest => handleMh rest
+    | "mhs" :: rest => handleMhs rest
     | "pg" :: rest => handlePg rest
     | _ => none
   r.getD "bad-op"
